@@ -71,12 +71,12 @@ def plan(tier):
     if tier == "quick":
         me = {m: 500 for m in DIRECT}
         me.update({m: 220 for m in RIGID})
-        me["knn_query"] = 1800
+        me["knn_query"] = 500
         me["reused_objects"] = 60
         return dict(n_cases=280, shards=3, classes=CLASSES, timeout_s=600, min_evals=me)
     me = {m: 8000 for m in DIRECT}
     me.update({m: 3700 for m in RIGID})
-    me["knn_query"] = 30000
+    me["knn_query"] = 8000
     me["reused_objects"] = 1000
     return dict(n_cases=4480, shards=16, classes=CLASSES, timeout_s=3000, min_evals=me)
 
@@ -621,6 +621,10 @@ def run_case(ctx, case):
             ctx.ood(m)
         return
     ok0, T0 = _call_stats(ctx, "get_nn_stats", A, B, case)
+    # the k-NN query called directly on the two whole lists: whether get_nn_distances / get_nn_rotations reach it through this
+    # public name is an internal matter of cryoCAT (their tables are judged against brute force either way); the knn_query monitor
+    # is reached in either case
+    ctx.call("get_feature_nn_indices", ctx.nn.get_feature_nn_indices, A, B, case["k"])
     if case["history"] == "fresh":
         okA2, A2 = ctx.call("Motl(a moved)", cm.Motl, case["dfa2"].copy())
         okB2, B2 = (okA2, A2) if case["same_object"] else ctx.call("Motl(b moved)", cm.Motl, case["dfb2"].copy())
@@ -640,6 +644,7 @@ def run_case(ctx, case):
             if B is not A:
                 _rewrite_in_place(B, case["dfb2"])
         ok1, T1 = _call_stats(ctx, "get_nn_stats(moved in place)", A, B, case)
+        ctx.call("get_feature_nn_indices(moved in place)", ctx.nn.get_feature_nn_indices, A, B, case["k"])
         ctx.check("reused_objects", ok1 and isinstance(T1, pd.DataFrame), {"what": "no table after moving both lists in place"})
     if not (ok0 and ok1):
         return
